@@ -285,7 +285,27 @@ fn mixed_sets(ctx: &Ctx) {
 /// Entities through protobuf
 fn entities_proto(ctx: &Ctx) {
     let mut l = Local::default();
-    for (i, s) in [store1(), store_empty()].iter().enumerate() {
+    let mut stores = vec![store1(), store_empty()];
+    // entities with every value shape of C10 as attribute and tag
+    #[cfg(feature = "c10")]
+    for (k, v) in crate::c10::values(Tier::Quick).into_iter().enumerate() {
+        if crate::c10::has_reserved_key(&v) {
+            continue;
+        }
+        let mut s = Store::default();
+        let mut e = Ent::default();
+        e.attrs.insert("x".into(), v.clone());
+        if k % 2 == 0 {
+            e.tags.insert("t".into(), v);
+        }
+        e.parents.insert(gg());
+        s.ents.insert(ua(), e);
+        let mut g = Ent::default();
+        g.parents.insert(gh());
+        s.ents.insert(gg(), g);
+        stores.push(s);
+    }
+    for (i, s) in stores.iter().enumerate() {
         let e = c_entities(s);
         l.case(hash_of(&("ents", i)), "entities-protobuf", true);
         l.transitions += 1;
